@@ -43,6 +43,9 @@ fn release_races(rng: &mut Rng, rounds: usize, sink: &mut Sink) -> u64 {
                     break;
                 }
                 let item = slot.lock().unwrap().take();
+                let bad2 = bad.clone();
+                let r = std::panic::catch_unwind(std::panic::AssertUnwindSafe(move || {
+                let bad = bad2;
                 if let Some((mut s, op)) = item {
                     let want = s.as_str().to_string();
                     match op {
@@ -70,6 +73,11 @@ fn release_races(rng: &mut Rng, rounds: usize, sink: &mut Sink) -> u64 {
                             s.clone_from(&other);
                         }
                     }
+                }
+                }));
+                if let Err(e) = r {
+                    let msg = e.downcast_ref::<String>().cloned().or_else(|| e.downcast_ref::<&str>().map(|s| s.to_string())).unwrap_or_default();
+                    bad.lock().unwrap_or_else(|p| p.into_inner()).push(format!("an operation on a racing clone panicked: {msg}"));
                 }
                 done.wait();
             }
@@ -106,7 +114,7 @@ fn release_races(rng: &mut Rng, rounds: usize, sink: &mut Sink) -> u64 {
     for w in workers {
         let _ = w.join();
     }
-    for b in bad.lock().unwrap().iter().take(5) {
+    for b in bad.lock().unwrap_or_else(|p| p.into_inner()).iter().take(5) {
         sink.fail(&["C04"], b.clone());
     }
     evals
@@ -140,8 +148,10 @@ fn borrowed_clone_races(rng: &mut Rng, rounds: usize, sink: &mut Sink) -> u64 {
                     while go.load(std::sync::atomic::Ordering::SeqCst) < 2 {
                         std::hint::spin_loop();
                     }
-                    let c = (*shared).clone();
-                    *outp.lock().unwrap() = Some(c);
+                    let r = std::panic::catch_unwind(std::panic::AssertUnwindSafe(|| (*shared).clone()));
+                    if let Ok(c) = r {
+                        *outp.lock().unwrap() = Some(c);
+                    }
                 }
                 done.wait();
             }
